@@ -71,9 +71,68 @@ def agent_stop_stream(chk):
     chk.stats["agent_stop"] = st
 
 
+REAL_CMDS = [
+    ("cooperative", "sleep 30", ""),
+    ("ignores-term", "trap '' TERM; sleep 30 & wait", ""),
+    ("leader-exits-child-ignores-term", "(trap '' TERM; exec sleep 25) & wait", ""),
+    ("ignores-its-signalOnStop", "trap '' INT; sleep 30 & wait", "SIGINT"),
+    ("obeys-its-signalOnStop", "trap 'exit 0' USR1; sleep 30 & wait", "SIGUSR1"),
+    ("grandchild-holds-pipe", "sh -c 'trap \"\" TERM; sleep 25' & wait", ""),
+]
+
+
+def real_stop_stream(chk):
+    """real `sh` steps under the real agent and the real command executor (process groups, pipes): stop via API or OS signal;
+    the run must end within MaxCleanUpTime (+ the 3 s polling granularity of Agent.signal), be recorded canceled, run
+    onCancel then onExit, and leave no step process behind"""
+    import p_c08, subprocess
+    binp, out = common.build_harness("agentrun")
+    if not binp:
+        chk.oblige("harness-build:agentrun", False, out[-3000:]); return
+    cases = []
+    k = 0
+    for name, cmd, sig in REAL_CMDS:
+        for via in (("api", "os") if chk.tier == "thorough" else (chk.rng.choice(["api", "os"]),)):
+            cases.append({"id": "rs%d" % k, "cmds": [cmd] + (["sleep 20"] if chk.rng.random() < 0.5 else []), "sigs": [sig, ""], "stopVia": via,
+                          "cleanupMs": 1500, "delayMs": chk.rng.choice([300, 500, 800]), "kind": name}); k += 1
+    def one(c):
+        p = subprocess.run([binp, "realstop"], input=json.dumps(c) + "\n", stdout=subprocess.PIPE, stderr=subprocess.PIPE, text=True, timeout=120)
+        try:
+            return json.loads(p.stdout.strip().split("\n")[-1])
+        except Exception:
+            return {"id": c["id"], "panic": "no result: " + p.stderr[-300:]}
+    import concurrent.futures as cf
+    with cf.ThreadPoolExecutor(8) as ex:
+        res = list(ex.map(one, cases))
+    st = {"cases": 0, "max_end_ms": 0, "kinds": {}}
+    for c, r in zip(cases, res):
+        chk.evaluations += 1; st["cases"] += 1; st["kinds"][c["kind"]] = st["kinds"].get(c["kind"], 0) + 1
+        chk.nontrivial.add("real-stop:" + c["kind"] + c["stopVia"])
+        bad = None
+        if r.get("panic"):
+            bad = ("real-stop:agent-crashed", r["panic"][:200])
+        elif r.get("endedMs", -1) < 0:
+            bad = ("real-stop:run-does-not-end-within-cleanup-bound:" + c["kind"], "run still alive %d ms after the stop (MaxCleanUpTime %d ms); step processes left: %s" % (c["cleanupMs"] + 8000, c["cleanupMs"], r.get("left")))
+        else:
+            st["max_end_ms"] = max(st["max_end_ms"], r["endedMs"])
+            if r["endedMs"] > c["cleanupMs"] + 3000 + 2000:
+                bad = ("real-stop:run-ends-late:" + c["kind"], "ended %d ms after the stop, MaxCleanUpTime %d ms" % (r["endedMs"], c["cleanupMs"]))
+            elif r.get("overall") != "canceled":
+                bad = ("real-stop:stopped-run-not-recorded-canceled:" + c["kind"], "final record says %r, steps %r" % (r.get("overall"), r.get("st")))
+            elif (r.get("handlers") or []) != ["onCancel", "onExit"]:
+                bad = ("real-stop:wrong-handlers-after-stop:" + c["kind"], "handlers run: %r" % r.get("handlers"))
+            elif r.get("left", 0) != 0:
+                bad = ("real-stop:step-process-survives-the-run:" + c["kind"], "%d processes of the step still alive 300 ms after the run ended" % r["left"])
+        if bad:
+            chk.violation("C05:" + bad[0], bad[1], {"real_stop_case": c, "result": r})
+    chk.stats["real_stop"] = st
+
+
 def run(chk, replay):
     if replay:
         rp = json.load(open(replay))
+        if "real_stop_case" in rp.get("case", {}):
+            real_stop_stream(chk); return
         if "agent_stop_case" in rp.get("case", {}):
             import p_c08
             chk.rng.seed(1)
@@ -88,6 +147,7 @@ def run(chk, replay):
         return re.findall(r"^theorem tie_(\w+) ", open(p).read(), re.M) if os.path.exists(p) else []
     chk.trusted = common.TRUSTED_COMMON + ["quiescence discipline of the scheduler harness (one completion released at a time)"]
     chk.assumptions = [sched.NOTES.get(PROP, "")]
-    common.lean_obligations(chk, "BdModel/Props/%s.lean" % PROP, {"Sched": sched.SCHED_TIE, "Agent": tie_names("Agent")}, extra_targets=["BdModel.Sched.Tables"])
+    common.lean_obligations(chk, "BdModel/Props/%s.lean" % PROP, {"Sched": sched.SCHED_TIE, "Agent": tie_names("Agent"), "Exec": tie_names("Exec")}, extra_targets=["BdModel.Sched.Tables"])
     sched.run_stream(chk, PROP, replay)
     agent_stop_stream(chk)
+    real_stop_stream(chk)
